@@ -133,6 +133,12 @@ FIXED = [
      '<xs:element name="e" type="xs:int" maxOccurs="18446744073709551615"/><xs:element name="f" type="xs:int" maxOccurs="18446744073709551616"/>'
      '<xs:element name="g" type="xs:int" minOccurs="4294967296" maxOccurs="unbounded"/><xs:element name="h" type="xs:int" maxOccurs="-1"/><xs:element name="i" type="xs:int" maxOccurs="0"/>'
      '</xs:sequence></xs:complexType></xs:schema>'),
+    # two recorded findings (known_findings.json): exponential re-reading of forward references, and unbounded recursion depth
+    ('forward-ref-chain-doubled-22', '<xs:schema xmlns:xs="http://www.w3.org/2001/XMLSchema" targetNamespace="urn:a" xmlns:a="urn:a" elementFormDefault="qualified">'
+     + ''.join(f'<xs:element name="E{i}"><xs:complexType><xs:sequence><xs:element ref="a:E{i + 1}"/><xs:element ref="a:E{i + 1}" minOccurs="0"/></xs:sequence></xs:complexType></xs:element>' for i in range(22))
+     + '<xs:element name="E22" type="xs:string"/></xs:schema>'),
+    ('nested-sequences-10000', '<xs:schema xmlns:xs="http://www.w3.org/2001/XMLSchema" targetNamespace="urn:a" xmlns:a="urn:a" elementFormDefault="qualified"><xs:complexType name="Deep">'
+     + '<xs:sequence>' * 10000 + '<xs:element name="x" type="xs:string"/>' + '</xs:sequence>' * 10000 + '</xs:complexType></xs:schema>'),
     ('enumeration-without-value', '<xs:schema xmlns:xs="http://www.w3.org/2001/XMLSchema" targetNamespace="urn:a"><xs:simpleType name="T"><xs:restriction base="xs:string"><xs:enumeration/></xs:restriction></xs:simpleType></xs:schema>'),
 ]
 
